@@ -179,12 +179,12 @@ def main(argv=None):
         "wall_s": round(wall, 2),
         "violations": len(real_viol),
     }
-    os.makedirs(os.path.join(VERIF, "evidence"), exist_ok=True)
-    jdump_file(ev, os.path.join(VERIF, "evidence", prop + ".json"))
+    evdir = os.environ.get("VERIF_EVIDENCE_DIR") or os.path.join(VERIF, "evidence")
+    os.makedirs(evdir, exist_ok=True)
+    jdump_file(ev, os.path.join(evdir, prop + ".json"))
     print("%s tier=%s seed=%d: %d cases, %d distinct non-trivial, %d oracle evaluations, %.1fs" % (
         prop, a.tier, seed, tot["cases"], nontrivial, sum(tot["counters"].values()), wall))
     if real_viol:
-        os.makedirs(os.path.join(VERIF, "replays"), exist_ok=True)
         seen = set()
         for v in real_viol[:10]:
             path = v.get("case_file") or "(none)"
